@@ -168,10 +168,23 @@ func singleCharAtom(n *Node) bool {
 // ReducesToRepeat over-approximates "is a bare quantified item or reducible to
 // one": strip non-capturing and atomic wrappers; what remains is a repeat, or a
 // concatenation made only of single-character atoms and repeats of them.
-func ReducesToRepeat(n *Node) bool {
+func ReducesToRepeat(n *Node) bool { return reducesToRepeat(n, false, false) }
+
+// ReducesToRepeatUnder is ReducesToRepeat for a body quantified greedily (outerLazy false) or
+// lazily: the engine multiplies directly nested repeaters only when both are greedy or both lazy,
+// so a single-character repeater of the OTHER laziness inside plain non-capturing groups keeps
+// its backtracking semantics and stays inside the fragment: (?:a+?)+, (?:[ab]{1,2}){2,3}?.
+func ReducesToRepeatUnder(n *Node, outerLazy bool) bool { return reducesToRepeat(n, true, outerLazy) }
+
+func reducesToRepeat(n *Node, relax, outerLazy bool) bool {
+	throughAtomic := false
 	for {
 		switch {
-		case n.K == KGroup && !n.Capture, n.K == KAtomic, n.K == KOptGroup:
+		case n.K == KAtomic:
+			throughAtomic = true
+			n = n.Kids[0]
+			continue
+		case n.K == KGroup && !n.Capture, n.K == KOptGroup:
 			n = n.Kids[0]
 			continue
 		case (n.K == KConcat || n.K == KAlt) && len(n.Kids) == 1:
@@ -181,6 +194,9 @@ func ReducesToRepeat(n *Node) bool {
 		break
 	}
 	if n.K == KRepeat {
+		if relax && !throughAtomic && n.Lazy != outerLazy && singleCharAtom(n.Kids[0]) && n.Min >= 1 {
+			return false
+		}
 		return true
 	}
 	if n.K == KConcat {
@@ -294,6 +310,10 @@ func (g *G) look(d int) *Node {
 		ahead = g.R.Intn(2) == 0
 	case g.P.LookAhead:
 		ahead = true
+	}
+	if g.R.Intn(12) == 0 {
+		// (?!) never matches, (?=) always does: the reductions know both
+		return &Node{K: KLook, Ahead: ahead, Neg: g.R.Intn(3) != 0, Kids: []*Node{{K: KEmpty}}}
 	}
 	return &Node{K: KLook, Ahead: ahead, Neg: g.R.Intn(2) == 0, Kids: []*Node{g.Alt(d - 1)}}
 }
@@ -422,13 +442,14 @@ func (g *G) Piece(d int) *Node {
 	case KOptSet, KComment, KEmpty:
 		return a
 	}
-	if !g.P.Nullable && (Nullable(a) || ReducesToRepeat(a)) {
-		return a
-	}
 	if g.P.GoSyntax && (a.K == KAnchor) {
 		return a
 	}
-	return g.quantOf(a)
+	q := g.quantOf(a)
+	if !g.P.Nullable && (Nullable(a) || ReducesToRepeatUnder(a, q.Lazy)) {
+		return a
+	}
+	return q
 }
 
 func (g *G) Concat(d int) *Node {
